@@ -14,7 +14,7 @@ using namespace asl;
 using vf::fmt;
 
 static int C_EVAL, C_DIST, W_NULL, W_TREE, W_LINKS, W_DEEP, W_TEXTCHILD, W_ATTR, W_COMMENT, W_PI, W_DOCTYPE, W_CDATA, W_REF, W_XMLDECL, W_EMPTYEND, W_MULTIBYTE,
-	W_RT_COMPACT, W_RT_INDENT, W_RT_MERGE, W_RT_DROP, W_RT_ESC_TEXT, W_RT_ESC_ATTR, W_RT_DEPTH12, W_RT_NONASCII, W_DUP;
+	W_RT_COMPACT, W_RT_INDENT, W_RT_MERGE, W_RT_DROP, W_RT_ESC_TEXT, W_RT_ESC_ATTR, W_RT_DEPTH12, W_RT_NONASCII, W_DUP, W_ENUMTREE, W_ENUMLINKS;
 
 // ---------------------------------------------------------------- observation of an asl tree (public API only)
 struct N {
@@ -53,6 +53,26 @@ static N observe(const Xml& e) {
 	for (int i = 0; i < e.numChildren(); i++) n.k.push_back(observe(e.child(i)));
 	return n;
 }
+static bool sameAttrs(const Xml& e, const N& n) {
+	const Map<>& at = e.attribs();
+	if (at.length() != (int)n.at.size()) return false;
+	foreach2(String& name, String& value, at) {
+		bool found = false;
+		for (size_t i = 0; i < n.at.size() && !found; i++)
+			found = name.length() == (int)n.at[i].first.size() && !memcmp(*name, n.at[i].first.data(), n.at[i].first.size()) && value.length() == (int)n.at[i].second.size() && !memcmp(*value, n.at[i].second.data(), n.at[i].second.size());
+		if (!found) return false;
+	}
+	return true;
+}
+static bool same(const Xml& e, const N& n) {
+	if (e.isText() != n.text) return false;
+	if (n.text) { const String& t = e.text(); return t.length() == (int)n.s.size() && !memcmp(*t, n.s.data(), n.s.size()); }
+	const String& tag = e.tag();
+	if (tag.length() != (int)n.s.size() || memcmp(*tag, n.s.data(), n.s.size())) return false;
+	if (!sameAttrs(e, n) || e.numChildren() != (int)n.k.size()) return false;
+	for (int i = 0; i < e.numChildren(); i++) if (!same(e.child(i), n.k[i])) return false;
+	return true;
+}
 static Xml build(const N& n) {
 	if (n.text) return XmlText(vfx::A(n.s));
 	Xml e(vfx::A(n.s));
@@ -85,6 +105,7 @@ static void decode_one(const std::string& txt, bool distinct) {
 	if (isnull) { vf::add(W_NULL); }
 	else {
 		vf::add(W_TREE); vf::add(W_LINKS, w.links);
+		if (distinct) { vf::add(W_ENUMTREE); if (w.links) vf::add(W_ENUMLINKS); }
 		if (w.depth >= 3) vf::add(W_DEEP);
 		if (w.text) vf::add(W_TEXTCHILD);
 		if (w.attr) vf::add(W_ATTR);
@@ -150,6 +171,25 @@ static void char_strings(int minLen, int maxLen) {
 		alarm(0);
 	}, 4);
 }
+// the XML declaration skip: "<?xml" followed by every string over the alphabet
+static void xmldecl_strings(int maxLen) {
+	vf::parallel((uint64_t)NCH * NCH, [&](uint64_t pre) {
+		alarm(1200);
+		if (out_of_time("xml declaration strings")) return;
+		const std::string head = "<?xml";
+		if (pre == 0) { decode_one(head, true); for (int a = 0; a < NCH; a++) decode_one(head + CH[a], true); }
+		std::string base = head + CH[pre / NCH] + CH[pre % NCH], s;
+		for (int len = 2; len <= maxLen; len++) {
+			uint64_t rest = 1; for (int i = 2; i < len; i++) rest *= NCH;
+			for (uint64_t r = 0; r < rest; r++) {
+				s = base; uint64_t x = r;
+				for (int i = 2; i < len; i++) { s += CH[x % NCH]; x /= NCH; }
+				decode_one(s, true);
+			}
+		}
+		alarm(0);
+	}, 4);
+}
 // every byte-prefix of every token sequence of at most maxTok tokens = (sequence of k < maxTok tokens) + piece
 static void token_one_prefix(const std::string& p, int charLen) {
 	std::string s;
@@ -183,6 +223,27 @@ static void token_strings(int minK, int maxK, int charLen) {
 		}
 		alarm(0);
 	}, 2);
+}
+
+// nesting: every sequence of whole tags / text runs (deeper element stacks, end tags that close more than was opened, mixed content)
+static const char* ST[] = { "<a>", "<b>", "</a>", "</b>", "</>", "<a/>", "<b x=\"&#38;\" y='v'>", "t", " ", "&amp;", "<!--c-->" };
+static const int NST = 11;
+static void struct_strings(int maxTok) {
+	vf::parallel((uint64_t)NST * NST * NST, [&](uint64_t pre) {
+		alarm(1200);
+		if (out_of_time("tag sequences")) return;
+		if (pre == 0) for (int a = 0; a < NST; a++) for (int b = 0; b < NST; b++) decode_one(std::string(ST[a]) + ST[b], true); // single tokens are byte-prefixes of the fine token pass or alphabet strings
+		std::string base = std::string(ST[pre / (NST * NST)]) + ST[pre / NST % NST] + ST[pre % NST], s;
+		for (int k = 3; k <= maxTok; k++) {
+			uint64_t rest = 1; for (int i = 3; i < k; i++) rest *= NST;
+			for (uint64_t r = 0; r < rest; r++) {
+				s = base; uint64_t x = r;
+				for (int i = 3; i < k; i++) { s += ST[x % NST]; x /= NST; }
+				decode_one(s, true);
+			}
+		}
+		alarm(0);
+	}, 4);
 }
 
 // documents for the truncation / edit neighbourhood
@@ -226,6 +287,37 @@ static void template_edits(bool thorough) {
 	});
 }
 
+// arbitrary bytes: every string of at most maxLen non-NUL bytes; every single byte substituted / inserted at every position of the documents
+static void byte_strings(int maxLen) {
+	vf::parallel(255, [&](uint64_t i) {
+		alarm(1200);
+		if (out_of_time("byte strings")) return;
+		std::string s(1, (char)(i + 1));
+		decode_one(s, charSpaceLen(s) < 0);
+		if (maxLen >= 2) for (int b = 1; b < 256; b++) {
+			std::string s2 = s + (char)b;
+			decode_one(s2, charSpaceLen(s2) < 0);
+			if (maxLen >= 3) for (int c = 1; c < 256; c++) { std::string s3 = s2 + (char)c; decode_one(s3, charSpaceLen(s3) < 0); }
+		}
+		alarm(0);
+	});
+}
+static void template_bytes() {
+	std::vector<std::string> tp = templates();
+	struct Job { int t, pos; };
+	std::vector<Job> jobs;
+	for (size_t t = 0; t < tp.size(); t++) for (int p = 0; p <= (int)tp[t].size(); p++) { Job j = { (int)t, p }; jobs.push_back(j); }
+	vf::parallel(jobs.size(), [&](uint64_t ji) {
+		alarm(1200);
+		const std::string& base = tp[jobs[ji].t]; int p = jobs[ji].pos;
+		for (int b = 1; b < 256; b++) {
+			char c[2] = { (char)b, 0 };
+			for (int kind = 0; kind <= 2; kind += 2) { std::string s = base; if (edit(s, p, kind, c)) decode_one(s, false); }
+		}
+		alarm(0);
+	}, 4);
+}
+
 // ---------------------------------------------------------------- (2) round trip
 static const char* VALS[] = { "", "v", "&", "<", ">", "\"", "'", "\xc3\xa9", " v " };
 static const int NV = 9;
@@ -235,6 +327,7 @@ static bool isws(const std::string& s) { for (size_t i = 0; i < s.size(); i++) i
 static N normal(const N& n, int order, bool* merged = 0, bool* dropped = 0) {
 	if (n.text) return n;
 	N r; r.s = n.s; r.at = n.at;
+	std::sort(r.at.begin(), r.at.end());
 	std::vector<N> k;
 	for (size_t i = 0; i < n.k.size(); i++) {
 		if (n.k[i].text) {
@@ -261,11 +354,12 @@ static void facts(const N& n, bool& escText, bool& escAttr, bool& nonascii) {
 	for (size_t i = 0; i < n.at.size(); i++) { if (needsEsc(n.at[i].second)) escAttr = true; if (contains(n.at[i].second, "\xc3")) nonascii = true; }
 	for (size_t i = 0; i < n.k.size(); i++) facts(n.k[i], escText, escAttr, nonascii);
 }
-// case string: T<hex>; | E<tag>[name=<hex>,...](children)
+// case string: T<hex text>; | E<hex tag>[<hex name>=<hex value>,...](children)
+static void hexa(const std::string& s, std::string& o) { static const char* hx = "0123456789abcdef"; for (size_t i = 0; i < s.size(); i++) { unsigned char c = s[i]; o += hx[c >> 4]; o += hx[c & 15]; } }
 static void ser(const N& n, std::string& o) {
-	if (n.text) { o += "T" + vf::hex(n.s) + ";"; return; }
-	o += "E" + n.s + "[";
-	for (size_t i = 0; i < n.at.size(); i++) o += n.at[i].first + "=" + vf::hex(n.at[i].second) + ",";
+	if (n.text) { o += 'T'; hexa(n.s, o); o += ';'; return; }
+	o += 'E'; hexa(n.s, o); o += '[';
+	for (size_t i = 0; i < n.at.size(); i++) { hexa(n.at[i].first, o); o += '='; hexa(n.at[i].second, o); o += ','; }
 	o += "](";
 	for (size_t i = 0; i < n.k.size(); i++) ser(n.k[i], o);
 	o += ")";
@@ -274,8 +368,8 @@ static bool parse(const char*& p, N& n) {
 	if (*p == 'T') { const char* e = strchr(p, ';'); if (!e) return false; n = T(vf::unhex(std::string(p + 1, e))); p = e + 1; return true; }
 	if (*p != 'E') return false;
 	const char* e = strchr(p, '['); if (!e) return false;
-	n = E(std::string(p + 1, e)); p = e + 1;
-	while (*p && *p != ']') { const char* q = strchr(p, '='); const char* c = q ? strchr(q, ',') : 0; if (!c) return false; n.at.push_back(std::make_pair(std::string(p, q), vf::unhex(std::string(q + 1, c)))); p = c + 1; }
+	n = E(vf::unhex(std::string(p + 1, e))); p = e + 1;
+	while (*p && *p != ']') { const char* q = strchr(p, '='); const char* c = q ? strchr(q, ',') : 0; if (!c) return false; n.at.push_back(std::make_pair(vf::unhex(std::string(p, q)), vf::unhex(std::string(q + 1, c)))); p = c + 1; }
 	if (*p != ']' || p[1] != '(') return false;
 	p += 2;
 	while (*p && *p != ')') { N c; if (!parse(p, c)) return false; n.k.push_back(c); }
@@ -292,13 +386,13 @@ static void show(const N& n, std::string& o) {
 }
 static std::string show(const N& n) { std::string o; show(n, o); return o; }
 
-static void roundtrip(const N& m, bool distinct) {
+static void roundtrip(const N& m, bool distinct, const std::string* tokcase = 0) {
 	static std::string kase;
-	kase.assign("rt:"); ser(m, kase);
+	if (tokcase) kase = *tokcase; else { kase.assign("rt:"); ser(m, kase); }
 	vf::cur(kase); vf::cur_sig("roundtrip_crash");
 	vf::add(C_EVAL); if (distinct) vf::add(C_DIST);
 	bool merged = false, dropped = false;
-	N exp0 = normal(m, 0, &merged, &dropped), exp1 = normal(m, 1);
+	N exp0 = normal(m, 0, &merged, &dropped);
 	if (merged) vf::add(W_RT_MERGE);
 	if (dropped) vf::add(W_RT_DROP);
 	bool et = false, ea = false, na = false; facts(m, et, ea, na);
@@ -310,21 +404,26 @@ static void roundtrip(const N& m, bool distinct) {
 	bool sole = soleText(m);
 	for (int formatted = 0; formatted <= (sole ? 1 : 0); formatted++) {
 		const char* mode = formatted ? "indented" : "compact";
-		std::string text, why; bool null = false, linksok = true; N got;
+		std::string text, why; bool null = false, linksok = true, exact = false; N got;
 		{
 			Xml e = build(m);
 			String enc = Xml::encode(e, formatted != 0);
-			text = vfx::S(enc);
 			vfx::Flush fl(enc);
 			Xml back = Xml::decode(enc);
 			if (!back) null = true;
-			else { Walk w; linksok = walk(back, 1, w, why, ""); got = observe(back); }
+			else {
+				Walk w; linksok = walk(back, 1, w, why, ""); vf::add(W_LINKS, w.links);
+				exact = same(back, exp0); // exp0 is in normal form: an exact match needs no normalisation of the decoded side
+				if (!exact) got = observe(back);
+			}
+			if (!exact || !linksok) text = vfx::S(enc);
 		}
 		vf::add(formatted ? W_RT_INDENT : W_RT_COMPACT);
 		if (vf::asan_tripped()) { vf::violation("roundtrip_asan", "ASan " + vf::asan_what() + fmt(" in %s encode/decode of ", mode) + show(m), kase); vf::asan_clear(); }
 		if (null) { vf::violation("roundtrip_reject", fmt("Xml::decode returns a null element for the %s output ", mode) + vf::jstr(text) + " of " + show(m), kase); continue; }
 		if (!linksok) vf::violation("decode_parent", fmt("decoded %s output ", mode) + vf::jstr(text) + ": " + why, kase);
-		N g0 = normal(got, 0), g1 = normal(got, 1);
+		if (exact) continue;
+		N g0 = normal(got, 0), g1 = normal(got, 1), exp1 = normal(m, 1);
 		if (!(g0 == exp0) && !(g1 == exp1) && !(g0 == exp1) && !(g1 == exp0))
 			vf::violation(formatted ? "roundtrip_indented" : "roundtrip_compact", fmt("%s output ", mode) + vf::jstr(text) + " decodes to " + show(got) + ", original " + show(m), kase);
 	}
@@ -348,7 +447,9 @@ static std::vector<N> allElemLabels() {
 	}
 	return l;
 }
-// stage A: every tree with <= maxNodes (2 or 3) nodes over the full label sets
+// stage A: every tree with <= 2 nodes over the full label sets; maxNodes 3: also every 3-node tree whose two non-root nodes range over the
+// full label sets and whose root ranges over the 8 labels tag x attribute subset
+static bool reducedRoot(const N& e) { for (size_t i = 0; i < e.at.size(); i++) if (e.at[i].second != (e.at[i].first == "x" ? "&" : "\"")) return false; return true; }
 static void stageA(int maxNodes) {
 	static std::vector<N> EL = allElemLabels();
 	std::vector<N> NL = EL; // any node: element or text
@@ -360,7 +461,7 @@ static void stageA(int maxNodes) {
 		roundtrip(EL[r], true);
 		for (size_t c = 0; c < nn; c++) {
 			N t = EL[r]; t.k.push_back(NL[c]); roundtrip(t, true);
-			if (maxNodes < 3) continue;
+			if (maxNodes < 3 || !reducedRoot(EL[r])) continue;
 			for (size_t d = 0; d < nn; d++) {
 				N t2 = t; t2.k.push_back(NL[d]); roundtrip(t2, true);          // two children
 				if (c < ne) { N t3 = t; t3.k[0].k.push_back(NL[d]); roundtrip(t3, true); } // child and grandchild
@@ -372,6 +473,7 @@ static void stageA(int maxNodes) {
 // stage B: every tree shape with minNodes..maxNodes nodes; element labels tag x attribute subset (values rotate through VALS by
 // occurrence), text labels all of VALS. Trees are generated as pre-order token strings: 0..7 open element, 8..16 text, 17 close.
 struct Gen {
+	int nlabels; // element labels used: 8 = tag x {none, x, y, x+y}; 4 = a, b, a[x], b[x,y]
 	int minNodes, maxNodes; size_t limit; // limit: stop descending at this many tokens (prefix collection); 0 = none
 	std::vector<int> tok; int open, nodes;
 	std::function<void(const std::vector<int>&, bool)> emit; // (tokens, complete)
@@ -380,7 +482,8 @@ struct Gen {
 		if (limit && tok.size() >= limit) { emit(tok, false); return; }
 		if (open > 0) { tok.push_back(17); open--; rec(); open++; tok.pop_back(); }
 		if (nodes >= maxNodes) return;
-		for (int l = 0; l < 8; l++) { tok.push_back(l); open++; nodes++; rec(); nodes--; open--; tok.pop_back(); }
+		static const int L4[] = { 0, 1, 2, 7 };
+		for (int li = 0; li < nlabels; li++) { int l = nlabels == 8 ? li : L4[li]; tok.push_back(l); open++; nodes++; rec(); nodes--; open--; tok.pop_back(); }
 		if (open > 0) for (int t = 0; t < NV; t++) { tok.push_back(8 + t); nodes++; rec(); nodes--; tok.pop_back(); }
 	}
 	void start(const std::vector<int>& prefix) {
@@ -398,32 +501,39 @@ static N fromTokens(const std::vector<int>& tok) {
 		int t = tok[i];
 		if (t < 8) { int sub = t >> 1; int vx = (rot + occ) % NV; if (sub & 1) occ++; int vy = (rot + occ) % NV; if (sub & 2) occ++; st.push_back(elemLabel(t & 1, sub, vx, vy)); }
 		else if (t < 17) st.back().k.push_back(T(VALS[t - 8]));
-		else { N e = st.back(); st.pop_back(); if (st.empty()) root = e; else st.back().k.push_back(e); }
+		else { N e = std::move(st.back()); st.pop_back(); if (st.empty()) root = std::move(e); else st.back().k.push_back(std::move(e)); }
 	}
 	return root;
 }
 static int c_trees;
-static uint64_t stageB(int minNodes, int maxNodes) {
+static std::string tokCase(const std::vector<int>& t) { std::string tc = "rtt:"; for (size_t j = 0; j < t.size(); j++) tc += (char)('a' + t[j]); return tc; }
+static int nodesOf(const std::vector<int>& t) { int n = 0; for (size_t i = 0; i < t.size(); i++) if (t[i] < 17) n++; return n; }
+static uint64_t stageB(int minNodes, int maxNodes, int nlabels, int distinctFrom) {
 	std::vector<std::vector<int> > items; std::vector<char> complete;
-	Gen g; g.minNodes = minNodes; g.maxNodes = maxNodes; g.limit = 4;
+	Gen g; g.nlabels = nlabels; g.minNodes = minNodes; g.maxNodes = maxNodes; g.limit = 4;
 	g.emit = [&](const std::vector<int>& t, bool c) { items.push_back(t); complete.push_back(c); };
 	g.start(std::vector<int>());
 	vf::parallel(items.size(), [&](uint64_t i) {
 		alarm(1200);
 		if (out_of_time("round trip, all shapes")) return;
-		if (complete[i]) { roundtrip(fromTokens(items[i]), true); vf::add(c_trees); return; }
-		Gen w; w.minNodes = minNodes; w.maxNodes = maxNodes; w.limit = 0;
-		w.emit = [&](const std::vector<int>& t, bool) { roundtrip(fromTokens(t), true); vf::add(c_trees); };
+		if (complete[i]) { std::string tc = tokCase(items[i]); roundtrip(fromTokens(items[i]), nodesOf(items[i]) >= distinctFrom, &tc); vf::add(c_trees); return; }
+		Gen w; w.nlabels = nlabels; w.minNodes = minNodes; w.maxNodes = maxNodes; w.limit = 0;
+		std::string tc;
+		w.emit = [&](const std::vector<int>& t, bool) { tc.assign("rtt:"); for (size_t j = 0; j < t.size(); j++) tc += (char)('a' + t[j]); roundtrip(fromTokens(t), nodesOf(t) >= distinctFrom, &tc); vf::add(c_trees); };
 		w.start(items[i]);
 		alarm(0);
 	}, 4);
 	return vf::get(c_trees);
 }
 // stage C: linear chains a > b > a > ... to depth 12, leaf none or one text, attributes on every level; plus every truncation of the compact text
-static N chain(int depth, int leaf, int sub, int voff) {
+static N chain(int depth, int leaf, int sub, int voff, bool rich) {
 	N cur; bool have = false;
 	for (int lv = depth - 1; lv >= 0; lv--) {
 		N e = elemLabel(lv & 1, sub, (voff + 2 * lv) % NV, (voff + 2 * lv + 1) % NV);
+		if (rich) { // other well-formed names: ':' '_' '-' '.' digits, non-ASCII
+			e.s = (lv & 1) ? "_\xc3\xa9" "9" : "a:B-c.d1_\xc3\xa9";
+			for (size_t i = 0; i < e.at.size(); i++) e.at[i].first = e.at[i].first == "x" ? "x:Y-z.w_1" : "\xc3\xa9" "y";
+		}
 		if (have) e.k.push_back(cur); else if (leaf > 0) e.k.push_back(T(VALS[leaf - 1]));
 		cur = e; have = true;
 	}
@@ -433,9 +543,9 @@ static void stageC(int distinctFromDepth) {
 	vf::parallel(12 * (NV + 1), [&](uint64_t i) {
 		alarm(1200);
 		int depth = (int)(i / (NV + 1)) + 1, leaf = (int)(i % (NV + 1));
-		for (int sub = 0; sub < 4; sub++) for (int voff = 0; voff < (sub ? NV : 1); voff++) {
-			N m = chain(depth, leaf, sub, voff);
-			roundtrip(m, depth >= distinctFromDepth);
+		for (int rich = 0; rich < 2; rich++) for (int sub = 0; sub < 4; sub++) for (int voff = 0; voff < (sub ? NV : 1); voff++) {
+			N m = chain(depth, leaf, sub, voff, rich != 0);
+			roundtrip(m, rich || depth >= distinctFromDepth);
 			if (voff > 1) continue;
 			std::string text;
 			{ Xml e = build(m); text = vfx::S(Xml::encode(e, false)); }
@@ -447,6 +557,7 @@ static void stageC(int distinctFromDepth) {
 
 static void run_case(const std::string& k) {
 	if (k.compare(0, 4, "dec:") == 0) decode_one(vf::unhex(k.substr(4)), true);
+	else if (k.compare(0, 4, "rtt:") == 0) { std::vector<int> t; for (size_t i = 4; i < k.size(); i++) t.push_back(k[i] - 'a'); roundtrip(fromTokens(t), true, &k); }
 	else if (k.compare(0, 3, "rt:") == 0) { N n; const char* p = k.c_str() + 3; if (parse(p, n)) roundtrip(n, true); else { fprintf(stderr, "bad case string\n"); _exit(2); } }
 }
 
@@ -459,6 +570,7 @@ int main(int argc, char** argv) {
 	W_CDATA = vf::counter("w.accepted_input_with_cdata_start"); W_REF = vf::counter("w.accepted_input_with_reference"); W_XMLDECL = vf::counter("w.accepted_input_with_xml_declaration");
 	W_EMPTYEND = vf::counter("w.inputs_containing_empty_end_tag"); W_MULTIBYTE = vf::counter("w.accepted_input_with_non_ascii");
 	W_DUP = vf::counter("token_strings_also_in_char_space");
+	W_ENUMTREE = vf::counter("w.enumerated_strings_decoding_to_a_tree"); W_ENUMLINKS = vf::counter("w.enumerated_strings_decoding_to_a_tree_with_children");
 	W_RT_COMPACT = vf::counter("w.roundtrip_compact"); W_RT_INDENT = vf::counter("w.roundtrip_indented"); W_RT_MERGE = vf::counter("w.roundtrip_adjacent_text_merged");
 	W_RT_DROP = vf::counter("w.roundtrip_whitespace_text_dropped"); W_RT_ESC_TEXT = vf::counter("w.roundtrip_text_needing_escape"); W_RT_ESC_ATTR = vf::counter("w.roundtrip_attribute_needing_escape");
 	W_RT_DEPTH12 = vf::counter("w.roundtrip_depth_12"); W_RT_NONASCII = vf::counter("w.roundtrip_non_ascii");
@@ -467,11 +579,14 @@ int main(int argc, char** argv) {
 	signal(SIGALRM, on_alarm);
 	if (vf::opt.replay) { vf::parallel(1, [&](uint64_t) { alarm(600); run_case(vf::opt.kase); }); return vf::finish(); }
 	bool TH = vf::opt.thorough();
-	const char* e;
+	const char* e; // the C07_* variables are development knobs (smaller bounds for mutation runs); the registered commands do not set them
 	int charLen = (e = getenv("C07_CHARLEN")) ? atoi(e) : TH ? 6 : 5;
 	int tokLen = (e = getenv("C07_TOKLEN")) ? atoi(e) : TH ? 6 : 5;
 	int fullNodes = (e = getenv("C07_FULLNODES")) ? atoi(e) : TH ? 3 : 2;
-	int shapeNodes = (e = getenv("C07_SHAPENODES")) ? atoi(e) : TH ? 6 : 5;
+	int byteLen = TH ? 3 : 2;
+	int structLen = (e = getenv("C07_STRUCTLEN")) ? atoi(e) : TH ? 7 : 6;
+	int shapeNodes = (e = getenv("C07_SHAPENODES")) ? atoi(e) : 5;      // all shapes, 8 element labels
+	int shapeNodes4 = (e = getenv("C07_SHAPENODES4")) ? atoi(e) : TH ? 6 : 5; // all shapes, 4 element labels (only sizes beyond shapeNodes)
 	double t0 = vf::now_s(), t1;
 	// shortest inputs first, so that the first reported counterexamples are minimal
 	char_strings(0, std::min(charLen, 4));
@@ -479,17 +594,22 @@ int main(int argc, char** argv) {
 	t1 = vf::now_s(); vf::setinfo("t_short_inputs", fmt("%.1f", t1 - t0)); t0 = t1;
 	stageA(fullNodes);
 	t1 = vf::now_s(); vf::setinfo("t_rt_full", fmt("%.1f", t1 - t0)); t0 = t1;
-	uint64_t nshape = stageB(fullNodes + 1, shapeNodes);
+	uint64_t nshape = stageB(3, shapeNodes, 8, fullNodes + 1); // in the thorough tier some 3-node trees are also in stage A: not counted as distinct
+	if (shapeNodes4 > shapeNodes) nshape = stageB(shapeNodes + 1, shapeNodes4, 4, 0);
 	t1 = vf::now_s(); vf::setinfo("t_rt_shapes", fmt("%.1f", t1 - t0)); t0 = t1;
-	stageC(shapeNodes + 1);
+	stageC(shapeNodes4 + 1);
 	t1 = vf::now_s(); vf::setinfo("t_rt_chains", fmt("%.1f", t1 - t0)); t0 = t1;
 	template_edits(TH);
+	template_bytes();
+	struct_strings(structLen);
+	byte_strings(byteLen);
 	t1 = vf::now_s(); vf::setinfo("t_templates", fmt("%.1f", t1 - t0)); t0 = t1;
+	xmldecl_strings(charLen - 1);
 	if (charLen > 4) char_strings(5, charLen);
 	t1 = vf::now_s(); vf::setinfo("t_chars", fmt("%.1f", t1 - t0)); t0 = t1;
 	if (tokLen - 1 >= 3) token_strings(3, tokLen - 1, charLen);
 	t1 = vf::now_s(); vf::setinfo("t_tokens", fmt("%.1f", t1 - t0)); t0 = t1;
-	vf::setinfo("bounds", fmt("{\"char_len\": %d, \"token_len\": %d, \"pieces\": %d, \"full_label_nodes\": %d, \"shape_nodes\": %d, \"shape_trees\": %llu}", charLen, tokLen, (int)PIECES.size(), fullNodes, shapeNodes, (unsigned long long)nshape));
+	vf::setinfo("bounds", fmt("{\"tag_sequence_len\": %d, \"byte_len\": %d, \"char_len\": %d, \"token_len\": %d, \"pieces\": %d, \"full_label_nodes\": %d, \"shape_nodes\": %d, \"shape_nodes_4_labels\": %d, \"shape_trees\": %llu}", structLen, byteLen, charLen, tokLen, (int)PIECES.size(), fullNodes, shapeNodes, shapeNodes4, (unsigned long long)nshape));
 	vf::sample("Xml::decode of every string over {< > / ! ? - & ; # x a = \" ' space \\u00e9} up to the length bound, e.g. \"</>\", \"<a/>\", \"<a a=''>\", \"&#x;<\"");
 	vf::sample("Xml::decode of every byte-prefix of every token sequence, e.g. \"<a x=\\\"&#38;\\\"><!--t--><?p ?>t</a>\" and \"<a x='&#x2\"");
 	vf::sample("round trip of <a x='&' y='\\u00e9'>{'<', <b>{' v '}, '', '>'} (compact) and of <a>{<b x='\"'>{' v '}, <b>{}} (compact and indented)");
